@@ -29,6 +29,15 @@ def docs_pool(ctx, n):
     rng = ctx.rng
     pool = [t for t, _ in C14.gen_commented(ctx, n)]
     pool += [t for _, t in rng.sample(corpus.texts(), min(30, len(corpus.texts()))) if len(t) < 8000]
+    # values that are mutable containers holding strings (lists of hex colours, of attribute bindings, expressions, multi-line strings):
+    # a callee that "normalises" such a value in place changes the caller's dictionary
+    from props import C04
+    for i in range(max(12, n // 3)):
+        b = gen.gen_block(rng, rng.choice(["style", "class", "layer", "label", "map"]), depth=rng.choice([0, 1, 2]), max_items=6)
+        C04.extras(rng, b)
+        pool.append(gen.render(b))
+    pool += ["STYLE\n  COLORRANGE \"#0000ff\" \"#ff0000\"\n  DATARANGE 0 10\nEND", "STYLE\n  SIZE [w]\n  OFFSET [x] [y]\nEND", "LABEL\n  SIZE [s]\n  OFFSET [ox] [oy]\n  COLOR [r] [g] [b]\nEND",
+             "LAYER\n  PROCESSING \"A=1\"\n  PROCESSING \"B=2\"\n  PROJECTION\n    \"init=epsg:4326\"\n  END\nEND"]
     pool += ["MAP NAME 'x' END # MAP\n# trailing\n", "MAP\n LAYER # c1\n  NAME 'a' # c2\n END # LAYER\nEND # MAP", "LAYER NAME END", "MAP \"unterminated END", "CLASS\nEND # c\n# after"]
     return pool
 
